@@ -30,6 +30,7 @@ type plan struct {
 	op    string
 	auto  bool
 	typ   *typeSpec
+	send  *sendSpec
 }
 
 func familyFor(src source) []*typeSpec {
@@ -71,10 +72,16 @@ type engine struct {
 // judge runs one round trip and reports a violation if the law does not hold.
 func (en *engine) judge(c *ev.Case, clause string, pl plan, val reflect.Value) string {
 	e := en.e
-	p := &probe{src: pl.src, op: pl.op, auto: pl.auto, typ: pl.typ, want: val}
+	p := &probe{src: pl.src, op: pl.op, auto: pl.auto, typ: pl.typ, want: val, send: pl.send}
 	o := en.g.get(pl.split).roundTrip(p)
 	e.Eval(1)
 	e.Stat("trips_"+sourceName[pl.src], 1)
+	if pl.send != nil && pl.src.isText() {
+		e.Stat("sent_with_"+sendName[pl.send.mode], 1)
+		if pl.send.mode == sendAdders && pl.send.interleaved {
+			e.Stat("sent_with_adders_interleaved", 1)
+		}
+	}
 	en.tripsBy[pl.src]++
 	m := o.manner()
 	if m == "" {
@@ -95,6 +102,59 @@ func (en *engine) report(c *ev.Case, clause string, p *probe, o *outcome, split 
 		e.Violation(c, panicSig(p), "Bind()."+opTitle(p.op)+" panicked on a value sent by the bundled client: "+p.panicVal,
 			map[string]any{"source": sourceName[p.src], "sent": renderStruct(p.typ, p.want), "stack": trim(p.stack, 2500)})
 		return
+	}
+	if p.send != nil && p.send.mode != sendStruct && p.src.isText() {
+		// Is it the way the client was given the value? The same value through the struct setter:
+		p2 := &probe{src: p.src, op: p.op, auto: p.auto, typ: p.typ, want: p.want, send: &sendSpec{files: p.send.files, fileAPI: p.send.fileAPI, fileFirst: p.send.fileFirst}}
+		o2 := en.g.get(split).roundTrip(p2)
+		if o2.manner() == "" {
+			how := sendName[p.send.mode]
+			if p.send.mode == sendAdders && p.send.interleaved {
+				// and with the same calls key by key?
+				p3 := &probe{src: p.src, op: p.op, auto: p.auto, typ: p.typ, want: p.want, send: &sendSpec{mode: sendAdders, files: p.send.files, fileAPI: p.send.fileAPI, fileFirst: p.send.fileFirst,
+					sched: makeSchedule(nil, p.typ, p.want, false)}}
+				if en.g.get(split).roundTrip(p3).manner() == "" {
+					how = "interleaved-adders"
+				}
+			}
+			cls := map[string]string{"len-more": "extra-values", "len-fewer": "missing-values", "value": "changed-values"}[m]
+			if cls == "" {
+				cls = m
+			}
+			det := map[string]any{"source": sourceName[p.src], "binder": p.op, "type": p.typ.ID, "EnableSplittingOnParsers": split,
+				"sent": renderStruct(p.typ, p.want), "status": o.status, "files_attached": p.send.files,
+				"file_api": []string{"AddFileWithReader", "AddFiles(AcquireFile)", "AddFile(path)"}[p.send.fileAPI], "files_before_fields": p.send.fileFirst,
+				"note": "the same value sent with the struct setter round-trips"}
+			if p.src != sMultipart {
+				delete(det, "files_attached")
+				delete(det, "file_api")
+				delete(det, "files_before_fields")
+			}
+			if p.send.mode == sendAdders {
+				det["adder_calls"] = p.send.calls(p)
+			}
+			if p.diff != nil {
+				det["first_difference_at"] = p.diff.Path
+				det["got"] = p.got
+			}
+			if p.hasErr {
+				det["bind_error"] = p.bindErr
+			}
+			if o.sendErr != "" {
+				det["client_error"] = o.sendErr
+			}
+			e.Violation(c, clause+"|"+sourceName[p.src]+"|sent-with-"+how+"|"+cls,
+				fmt.Sprintf("client (%s) -> %s -> Bind().%s: per key, the bound values are not what was added in the order it was added (%s)",
+					how, sourceName[p.src], opTitle(p.op), m), det)
+			return
+		}
+		p, o = p2, o2 // not a matter of the sending API: reduce as usual
+		m = o.manner()
+		if m == "panic" {
+			e.Violation(c, panicSig(p), "Bind()."+opTitle(p.op)+" panicked on a value sent by the bundled client: "+p.panicVal,
+				map[string]any{"source": sourceName[p.src], "sent": renderStruct(p.typ, p.want), "stack": trim(p.stack, 2500)})
+			return
+		}
 	}
 	cl := classify(en.g, clause, p, o, split)
 	what := fmt.Sprintf("client -> %s -> Bind().%s: decoded value differs from the value given to the client (%s)",
@@ -136,11 +196,14 @@ func trim(s string, n int) string {
 func run(e *ev.Env) {
 	en := &engine{e: e, g: newRigs()}
 	defer en.g.close()
+	defer removeTmpFile()
 	e.Note("domain", domainNote)
+	e.Note("sending", "text sources: the struct setters, or element-by-element AddParam/AddFormData/AddHeader/SetCookie calls (keys interleaved or together), or the map setters; multipart with 1-2 files via AddFileWithReader/AddFiles/AddFile, before or after the fields")
 	e.Note("nontrivial", "a round trip whose value has a string with a character outside [A-Za-z0-9] or a slice of length != 1; distinct by (source, splitting, value)")
 	e.Note("transport", "bundled client -> fasthttputil.InmemoryListener -> app.Listener; one app per EnableSplittingOnParsers setting per process (pooled contexts, binders and decoders are reused across cases, as in a real server)")
 
 	en.corpus()
+	en.sendCorpus()
 
 	ran := 0
 	e.Cases("rt", e.N(20000, 2000000), func(c *ev.Case) {
@@ -149,6 +212,7 @@ func run(e *ev.Env) {
 		d := newDomain(pl.src, pl.split)
 		budget := d.budget
 		val := genStruct(r, d, pl.typ, &budget)
+		pl.send = genSend(r, pl.src, pl.typ, val)
 		en.judge(c, "roundtrip", pl, val)
 		if nontrivial(pl.typ, val) {
 			e.Nontrivial(sourceName[pl.src], strconv.FormatBool(pl.split), fmt.Sprint(val.Interface()))
@@ -289,6 +353,7 @@ func (en *engine) corpus() {
 func runRace(e *ev.Env) {
 	en := &engine{e: e, g: newRigs()}
 	defer en.g.close()
+	defer removeTmpFile()
 	e.Note("domain", domainNote)
 	e.Note("mode", "16 goroutines, each with its own app+listener+client and its own struct type, share the process-wide binder pools, schema decoder pools and schema type cache; a mismatch is re-run alone: if it also fails alone it is reported under the sequential signature, otherwise as race|...|concurrent-only")
 	const G = 16
@@ -329,7 +394,8 @@ func runRace(e *ev.Env) {
 					d := newDomain(pl.src, pl.split)
 					budget := d.budget / 4
 					val := genStruct(r, d, pl.typ, &budget)
-					p := &probe{src: pl.src, op: pl.op, auto: pl.auto, typ: pl.typ, want: val}
+					pl.send = genSend(r, pl.src, pl.typ, val)
+					p := &probe{src: pl.src, op: pl.op, auto: pl.auto, typ: pl.typ, want: val, send: pl.send}
 					o := rg[g].get(pl.split).roundTrip(p)
 					trips[g]++
 					if m := o.manner(); m != "" && len(fails[g]) < 3 {
